@@ -5,21 +5,26 @@ import json, os, shutil, subprocess, sys
 ROUND2 = "--round2" in sys.argv
 ROUND3 = "--round3" in sys.argv
 ROUND4 = "--round4" in sys.argv
-SRC = "/tmp/seedout4" if ROUND4 else "/tmp/seedout3" if ROUND3 else "/tmp/seedout2" if ROUND2 else "/tmp/seedout"
-LETTERS = ("g", "h") if ROUND4 else ("e", "f") if ROUND3 else ("c", "d") if ROUND2 else ("a", "b")
+ROUND5 = "--round5" in sys.argv
+SRC = "/tmp/seedout5" if ROUND5 else "/tmp/seedout4" if ROUND4 else "/tmp/seedout3" if ROUND3 else "/tmp/seedout2" if ROUND2 else "/tmp/seedout"
+LETTERS = ("i", "j") if ROUND5 else ("g", "h") if ROUND4 else ("e", "f") if ROUND3 else ("c", "d") if ROUND2 else ("a", "b")
 DST = "/verif/seeded"
 extra_checks = {"C01a": ["C10"], "C03b": ["C16"], "C06b": ["C07"], "C07a": ["C14"], "C17b": ["C12"],
                 "C01c": ["C07"], "C02c": ["C07"], "C02d": ["C12"], "C03d": ["C01"], "C04d": ["C13"], "C09d": ["C18"], "C10d": ["C07"],
                 "C01f": ["C03"], "C03f": ["C01"], "C09f": ["C18"], "C18e": ["C09"], "C12e": ["C04"], "C04e": ["C13"], "C13f": ["C04", "C07"],
                 "C10f": ["C07"], "C07f": ["C01"], "C06f": ["C07"], "C14f": ["C07"],
                 "C01g": ["C03"], "C03g": ["C18"], "C04h": ["C18"], "C09h": ["C05"], "C13h": ["C07"], "C02h": ["C19"], "C17g": ["C08"], "C12h": ["C04"],
-                "C04g": ["C12"], "C01h": ["C03"], "C07g": ["C06"], "C02g": ["C18"]}
+                "C04g": ["C12"], "C01h": ["C03"], "C07g": ["C06"], "C02g": ["C18"],
+                "C01j": ["C07"], "C03i": ["C09"], "C03j": ["C07"], "C04j": ["C11"], "C06j": ["C07"], "C11i": ["C04"], "C13i": ["C07"],
+                "C13j": ["C07"], "C02i": ["C09"], "C02j": ["C07"], "C09i": ["C16"], "C09j": ["C03"], "C14j": ["C07"], "C17j": ["C12"]}
 # seeds whose own property's check does not observe the mechanism; the named check is the one that decides
 decided_by = {"C09d": "C18", "C02d": "C12", "C09f": "C18", "C18e": "C09",
               "C01g": "C03", "C03g": "C18", "C04h": "C18", "C09h": "C05", "C13h": "C07", "C02g": "C18", "C02h": "C19"}
 only = [a for a in sys.argv[1:] if not a.startswith("--")]
 for prop in sorted(os.listdir(SRC)):
     if not prop.startswith("C") or not os.path.isdir(os.path.join(SRC, prop)):
+        continue
+    if only and not any(o.startswith(prop) for o in only):
         continue
     ver = json.load(open(os.path.join(SRC, prop, "VERIFY.json")))
     for x in LETTERS:
